@@ -1,0 +1,25 @@
+//go:build verif
+
+// Contracts for the deductive verification in /verif (comment-only; compiled code is unaffected).
+package signer
+
+// Fail closed (C06): a signer returns a signature if and only if the result is "succeeded"; batches position by position.
+// The standard implementation is verified against the same clauses (services/signer/standard).
+
+//@ iface Service.SignGeneric(self, ctx, credentials, accountName, pubKey, data)
+//@ modifies tokroot, db, checkedset
+//@ ensures [failclosed] (result0 == core.ResultSucceeded) <==> (result1 != nil)
+//@ iface Service.SignBeaconAttestation(self, ctx, credentials, accountName, pubKey, data)
+//@ modifies tokroot, db, checkedset
+//@ ensures [failclosed] (result0 == core.ResultSucceeded) <==> (result1 != nil)
+//@ iface Service.SignBeaconProposal(self, ctx, credentials, accountName, pubKey, data)
+//@ modifies tokroot, db, checkedset
+//@ ensures [failclosed] (result0 == core.ResultSucceeded) <==> (result1 != nil)
+//@ iface Service.Multisign(self, ctx, credentials, accountNames, pubKeys, data)
+//@ modifies tokroot, db, checkedset
+//@ ensures [len] len(result0) >= 1 && (len(result1) == 0 || len(result1) == len(result0))
+//@ ensures [failclosed] forall i int :: 0 <= i && i < len(result0) ==> ((result0[i] == core.ResultSucceeded) <==> (i < len(result1) && result1[i] != nil))
+//@ iface Service.SignBeaconAttestations(self, ctx, credentials, accountNames, pubKeys, data)
+//@ modifies tokroot, db, checkedset
+//@ ensures [len] len(result0) >= 1 && (len(result1) == 0 || len(result1) == len(result0))
+//@ ensures [failclosed] forall i int :: 0 <= i && i < len(result0) ==> ((result0[i] == core.ResultSucceeded) <==> (i < len(result1) && result1[i] != nil))
